@@ -170,12 +170,12 @@ class Server(object):
         r = ref_response.parse_response(data, 0, method) if data else None
         return r, data, err
 
-    def wait_ready(self, limit=25.0):
+    def wait_ready(self, limit=25.0, path="/pid"):
         t0 = time.time()
         while time.time() - t0 < limit:
             if self.proc.poll() is not None and not self.daemon:
                 return False
-            r, data, err = self.request("/pid", timeout=2.0)
+            r, data, err = self.request(path, timeout=2.0)
             if r is not None and r.ok and r.status == 200:
                 m = re.search(rb"pid=(\d+)", r.body)
                 st = stat(int(m.group(1))) if m else None
